@@ -135,6 +135,17 @@ package dns64
 //@   assert at call (*middleware.Chain).Materialize#1: lastret("(*middleware.Request).Qclass") == dns.ClassINET && !lastret("(middleware.ResponseWriter).Internal") && lastret("(*middleware.Request).RD") && !lastret("(*middleware.Request).CD") && lastret("(*middleware/dns64.compiled).clientEligible") && (lastret("(*middleware.Request).Qtype") == dns.TypeAAAA || lastret("(*middleware.Request).Qtype") == dns.TypePTR)
 //@   assert at call (*middleware/dns64.DNS64).handlePTR#1: lastret("(*middleware.Request).Qtype") == dns.TypePTR && calls("(*middleware.Chain).Materialize") == 1
 //@   assert at call (*sync.Pool).Get#1: lastret("(*middleware.Request).Qtype") == dns.TypeAAAA && !lastret("(*middleware/dns64.compiled).zoneExcluded") && calls("(*middleware.Chain).Materialize") == 1
+//@ # "only for ... non-excluded zones": a name is reported as not excluded only after EVERY configured zone was looked
+//@ # at and none of them is the root (under which every name lies), the name itself, or a label-boundary suffix of it
+//@ func (*compiled).zoneExcluded
+//@   abstract
+//@   nosafety all pre
+//@   loop 1 invariant forall j int :: {c.excludeZones[j]} 0 <= j && j < rangeidx ==> c.excludeZones[j] != "." && c.excludeZones[j] != qname
+//@   assert at return#1: !result && len(c.excludeZones) == 0
+//@   assert at return#4: !result && exhausted(1) && forall j int :: {c.excludeZones[j]} 0 <= j && j < len(c.excludeZones) ==> c.excludeZones[j] != "." && c.excludeZones[j] != qname
+//@   assert at call strings.HasSuffix#1: arg0 == qname && arg1 == "." + z
+//@   assert at return#3: result && lastret("strings.HasSuffix")
+//@   assert at return#2: result
 //@ func (*compiled).shouldExcludeAOnPrefix
 //@   requires c != nil
 //@   modifies nothing
